@@ -165,7 +165,7 @@ func getNodeWhitespace(nodes []TemplateFileNode, i int) string {
 func endsWithComment(s string) bool {
 	lineSlice := strings.Split(s, "\n")
 	// The comment may be indented in the source, gofmt moves it to the start of the line.
-	return strings.HasPrefix(strings.TrimLeft(lineSlice[len(lineSlice)-1], " \t"), "//")
+	return strings.HasPrefix(strings.TrimLeft(lineSlice[len(lineSlice)-1], " \t\r"), "//")
 }
 
 // TemplateFileNode can be a Template, CSS, Script or Go.
